@@ -8,7 +8,8 @@
 # Exploration: deviation-bounded around nominal scripts (one script per configuration, see SCRIPTS: FS reset/suspend/
 # resume, FS reset out of suspend/soft disconnect/VBUS loss, LS ditto, HS chirp handshake, glitchy host chirps, chirp
 # time-out, late host chirp, HS suspend/resume, HS suspend + reset out of suspend, HS reset out of HS, speed restriction
-# at HS, VBUS loss at HS, soft disconnect at HS + bus_busy).  Scripts that start in HS operation run the nominal
+# at HS, VBUS loss at HS, soft disconnect at HS + bus_busy, HS suspend/resume followed by a drop to FS/LS [chirp
+# time-out / full_speed_only / low_speed_only] and an FS/LS suspend/resume).  Scripts that start in HS operation run the nominal
 # handshake once in the prologue.  At every script position the explorer may, at the cost of one deviation (k = 1 quick;
 # thorough adds k = 2 over a reduced menu):
 #   * replace the segment by any (line state, duration) of the menu (durations straddle every threshold by -1..+3,
@@ -45,7 +46,7 @@ from rtlmc.explore import Spec
 
 PROPERTY = "C19"
 TECHNIQUE = "macro-step explicit-state BFS, deviation-bounded around nominal line-state scripts, run-length monitor"
-LEVEL_TEXT = ("The real USBResetSequencer netlist (real 60 MHz constants, events of up to 180 000 cycles run in C) is driven through 13 nominal "
+LEVEL_TEXT = ("The real USBResetSequencer netlist (real 60 MHz constants, events of up to 180 000 cycles run in C) is driven through 16 nominal "
               "line-state scripts (FS/LS reset, suspend, resume, soft disconnect, VBUS loss; HS chirp handshake incl. glitched/late/missing host "
               "chirps; HS suspend/resume; HS reset; speed restriction, VBUS loss and disconnect at HS) and every history that differs from a "
               "script by at most k deviations (k=1 over the full menu of line states x durations straddling each threshold by -1..+3 cycles, "
@@ -140,9 +141,24 @@ SCRIPTS = {
     # soft disconnect while in HS operation; bus_busy delaying the device chirp
     "hs_disc": (HSPRE, [S(SE0, 1000), S(J, 1000, disc=1), S(J, 1000), S(SE0, 310), S(K, 1000, busy=1), DEVCHIRP, S(SE0, 1000)],
                 ["hs_entered", "nondriving", "device_chirp"]),
+    # --- a stale "suspended at high speed" memory: HS suspend + resume first (nominal prefix), then the device ends up
+    # at full/low speed without a completed handshake, is suspended there and resumed: it must stay at full/low speed
+    # (a) HS reset answered by a host that does not chirp -> fallback to FS, FS suspend, resume
+    "hs_susp_fallback_fs_susp": (HSPRE + [S(SE0, HSREV), S(J, 12_010), S(K, 1000), S(SE0, 1000)],
+                                 [S(SE0, HSREV), S(SE0, 12_010), DEVCHIRP, S(SE0, 150_010), S(J, 180_010), S(K, 1000), S(J, 1000)],
+                                 ["suspend_hs", "hs_by_resume", "reset_hs", "fallback", "suspend_fs", "resume_stays_fs_ls"]),
+    # (b) a temporary full_speed_only restriction drops the device to FS, FS suspend, resume
+    "hs_susp_restrict_fs_susp": (HSPRE + [S(SE0, HSREV), S(J, 12_010), S(K, 1000), S(SE0, 1000)],
+                                 [S(SE0, 1000, fs=1), S(J, 1000, fs=1), S(J, 180_010), S(K, 1000), S(J, 1000), S(SE0, 310), S(K, 1000)],
+                                 ["suspend_hs", "hs_by_resume", "hs_left_on_restriction", "suspend_fs", "resume_stays_fs_ls"]),
+    # (c) low_speed_only drops the device to LS (J = 10, K = 01), LS suspend, resume
+    "hs_susp_restrict_ls_susp": (HSPRE + [S(SE0, HSREV), S(J, 12_010), S(K, 1000), S(SE0, 1000)],
+                                 _with([S(SE0, 1000), S(2, 1000), S(2, 180_010), S(1, 1000), S(2, 1000)], ls=1),
+                                 ["suspend_hs", "hs_by_resume", "hs_left_on_restriction", "speed_low", "suspend_ls", "resume_stays_fs_ls"]),
 }
 ORDER = ["fs_a", "fs_b", "ls", "hs_handshake", "hs_glitchy", "hs_fallback", "hs_late", "hs_suspend", "hs_suspend_reset",
-         "hs_reset", "hs_restrict", "hs_vbus", "hs_disc"]
+         "hs_reset", "hs_restrict", "hs_vbus", "hs_disc", "hs_susp_fallback_fs_susp", "hs_susp_restrict_fs_susp",
+         "hs_susp_restrict_ls_susp"]
 
 
 def configs(tier):
@@ -488,6 +504,8 @@ class ResetSpec(Spec):
         if m.pend:
             m.pend = 1 if pend_new else min(T200US, m.pend + n)
         m.rst_gap = 0 if rst else min(4, m.rst_gap + n)
+        if m.p_su and not su and not m.susp_hs: cover["fs_ls_suspend_left"] += 1
+        if m.susp_gap == 3 and not su and not hs and not m.susp_hs and not ch: cover["resume_stays_fs_ls"] += 1
         if su:
             m.susp_gap = 0
         else:
